@@ -29,4 +29,29 @@ CHECKS = {
         "required_probes": {"quick": ["reload_ok", "reload_timed_out", "validation_failed", "reload_error"],
                             "thorough": ["reload_ok", "reload_timed_out", "validation_failed", "reload_error"]},
     },
+    "C05": {
+        "test": "TestC05",
+        "level": "exploration",
+        "budget": {"quick": 45, "thorough": 900},
+        "rule": ("each evaluation is one simulated history: 1-4 client tasks sending queries through FBDNSDB.ServeDNS and one operator "
+                 "publishing a new generation-stamped database and reloading (full / partial; valid, missing, unreadable, without "
+                 "validation key, injected error, slower than the timeout), interleaved by the seeded scheduler at the verif yield "
+                 "points of the handler and of the reload path. Non-trivial = at least one query overlapped a reload or the scheduler "
+                 "pre-empted an enabled task; distinct = distinct hash of the full (task, yield point) schedule."),
+        "components": {
+            "real": REAL_SERVER + ["dnsserver.FBDNSDB.ServeDNS (cache off)", "db answer/location code", "cdb driver on real CDB files (mmap)",
+                                   "rocksdb driver on real RocksDB directories (secondary; in-process primary applying diffs), v1 and v2 keys",
+                                   "dnsdata/cdb and dnsdata/rdb compilers (outside the bubble), rdb.ApplyDiff (inside)"],
+            "stub": ["recording stats.Stats and dnsserver.Logger", "monitor wrapper around the real db.DBI (reload fault plan)"],
+            "simulated": ["clock, timers, context deadlines (testing/synctest)", "goroutine scheduling at yield points (seeded)"],
+            "not_run": ["fsnotify watchers (signals are sent by the operator task directly or through ReloadChan)", "network"],
+        },
+        "assumptions": [
+            "interleavings are explored at the granularity of the verif yield points",
+            "RocksDB's own background threads are real and unscheduled; only logical content is observed",
+            "publish and reload are never concurrent with each other (each reload has a definite target)",
+        ],
+        "required_probes": {"quick": ["query_overlaps_reload", "reload_ok", "reload_timed_out", "validation_failed", "reload_error"],
+                            "thorough": ["query_overlaps_reload", "reload_ok", "reload_timed_out", "validation_failed", "reload_error", "decoy_published"]},
+    },
 }
